@@ -126,7 +126,10 @@ GLM_FUNC_QUALIFIER glm_vec4 glm_vec4_round(glm_vec4 x)
 		glm_vec4 const or0 = _mm_or_ps(and0, _mm_set_ps1(8388608.0f));
 		glm_vec4 const add0 = glm_vec4_add(x, or0);
 		glm_vec4 const sub0 = glm_vec4_sub(add0, or0);
-		return sub0;
+		// The 2^23 trick only holds for |x| < 2^23; larger magnitudes (and NaN) are already integral: keep x
+		glm_vec4 const abs0 = _mm_andnot_ps(sgn0, x);
+		glm_vec4 const msk0 = _mm_cmplt_ps(abs0, _mm_set_ps1(8388608.0f));
+		return _mm_or_ps(_mm_and_ps(msk0, sub0), _mm_andnot_ps(msk0, x));
 #	endif
 }
 
